@@ -9,8 +9,9 @@
      parse                 load
      _add_components       add_components   (duplicate component, unknown unit, duplicate variable / cmeta id, reaction)
      _add_relationships    add_relationships (only `encapsulation` groups; parent bookkeeping; KeyError on unknown names)
-     _determine_connection_direction   direction  (sibling test = equal parents, None = None included;
-                                                   "not my child => my parent" without checking it)
+     _determine_connection_direction   direction  (sibling test = equal parents, None = None included; siblings need an
+                                                   (out, in) pair of public interfaces, otherwise one component must be
+                                                   the parent of the other: the code after the fix: commit 9e0bca6)
      _add_connections      directions + connect   (rotating deque with unchanged_loop_count)
      _add_maths            add_maths        (identifier -> end of the connected_variable_mapping chain)
      transform_constants   transform_constants (insertion order: the model of the code AFTER the F11 fix)
@@ -156,13 +157,19 @@ Definition direction (vars : list fv) (names : list Z) (ps : list (option Z)) (c
       | None => Error EMissingVar
       | Some i2 =>
           if optZ_eqb (parent_of names ps c1) (parent_of names ps c2)
-          then (if is_out (pub_of vars i1) then OK (i1, i2) else OK (i2, i1))
+          then (if is_out (pub_of vars i1) && is_in (pub_of vars i2) then OK (i1, i2)
+                else if is_out (pub_of vars i2) && is_in (pub_of vars i1) then OK (i2, i1)
+                else Error ENoDirection)
           else
-            let pc := if optZ_eqb (Some c1) (parent_of names ps c2) then (i1, i2) else (i2, i1) in
-            let pv := fst pc in let cv := snd pc in
-            if is_in (pub_of vars cv) && is_out (priv_of vars pv) then OK (pv, cv)
-            else if is_out (pub_of vars cv) && is_in (priv_of vars pv) then OK (cv, pv)
-            else Error ENoDirection
+            match (if optZ_eqb (Some c1) (parent_of names ps c2) then Some (i1, i2)
+                   else if optZ_eqb (Some c2) (parent_of names ps c1) then Some (i2, i1) else None) with
+            | None => Error ENoDirection
+            | Some pc =>
+                let pv := fst pc in let cv := snd pc in
+                if is_in (pub_of vars cv) && is_out (priv_of vars pv) then OK (pv, cv)
+                else if is_out (pub_of vars cv) && is_in (priv_of vars pv) then OK (cv, pv)
+                else Error ENoDirection
+            end
       end
   end.
 
